@@ -84,6 +84,8 @@ class FieldArrayModel(FieldCompositeModel):
             f.name = self.name + "[" + str(i) + "]"
         
     def pre_randomize(self, visited):
+        # The number of elements that the list holds when the call starts
+        self.presolve_len = len(self.field_l)
         # Set the size field for arrays that don't
         # have a random size
         if self.is_rand_sz:
